@@ -687,11 +687,19 @@ fn find_secret(text: &str, secret: &[u8]) -> Vec<&'static str> {
         }
     }
     if let Ok(s) = std::str::from_utf8(secret) {
-        if text.contains(s) {
+        // a fragment of a textual secret is a leak too (e.g. the tail of a credential after a mis-split): any 8 characters
+        let cs: Vec<char> = s.chars().collect();
+        if text.contains(s) || cs.windows(8).any(|w| text.contains(&w.iter().collect::<String>())) {
             found.push("raw");
         }
     }
     found
+}
+
+/// a credential with a URI-reserved character in the middle (chosen by the seed), as a user would have to percent-encode it
+fn special_word(seed: u64, label: &str) -> String {
+    const SP: [&str; 10] = ["&", "=", "#", "%", "+", ";", "&&", "=&", "?", "%26"];
+    format!("{}{}{}", secret_word(seed, label, 10), SP[(seed % SP.len() as u64) as usize], secret_word(seed ^ 0x5a5a, label, 10))
 }
 
 fn secret_bytes(seed: u64, label: &str, n: usize) -> Vec<u8> {
@@ -801,8 +809,10 @@ fn fmt_subject(ty: &str, seed: u64, tag: &str) -> Result<(Vec<Shown>, Vec<(Strin
         }
         "Options" => {
             use askar_storage::Options;
-            let pw = secret_word(seed, ty, 20);
-            let uri = if arg == "query" {
+            let pw = if arg == "query-special" { special_word(seed, ty) } else { secret_word(seed, ty, 20) };
+            let uri = if arg == "query-special" {
+                format!("postgres://user@host.example/db?admin_account=adm&admin_password={}&connect_timeout=1", pct(&pw))
+            } else if arg == "query" {
                 format!("postgres://user@host.example/db?admin_account=adm&admin_password={}", pw)
             } else {
                 format!("postgres://user:{}@host.example/db", pw)
@@ -812,8 +822,10 @@ fn fmt_subject(ty: &str, seed: u64, tag: &str) -> Result<(Vec<Shown>, Vec<(Strin
         }
         "PostgresStoreOptions" => {
             use askar_storage::postgres::PostgresStoreOptions;
-            let pw = secret_word(seed, ty, 20);
-            let uri = if arg == "query" {
+            let pw = if arg == "query-special" { special_word(seed, ty) } else { secret_word(seed, ty, 20) };
+            let uri = if arg == "query-special" {
+                format!("postgres://user:x@host.example/db?admin_account=adm&admin_password={}&connect_timeout=1", pct(&pw))
+            } else if arg == "query" {
                 format!("postgres://user:x@host.example/db?admin_account=adm&admin_password={}", pw)
             } else {
                 format!("postgres://user:{}@host.example/db", pw)
@@ -1158,8 +1170,12 @@ fn exec_log(case: &Value, tag: &str) -> Value {
                 secrets.push(("uri password".into(), pw.clone().into_bytes()));
                 secrets.push(("uri password (percent-decoded)".into(), pw_special.clone().into_bytes()));
                 secrets.push(("uri admin_password".into(), apw.clone().into_bytes()));
+                let apw_special = special_word(seed, "adminpw2");
+                secrets.push(("uri admin_password (percent-decoded)".into(), apw_special.clone().into_bytes()));
                 let (entry, which) = arg.split_once('/').unwrap_or((arg, "postgres"));
                 let uri = match which {
+                    "postgres-query-encoded" => format!("postgres://user:{}@127.0.0.1:1/db?connect_timeout=1&admin_account=adm&admin_password={}", pw, pct(&apw_special)),
+                    "sqlite-query-encoded" => format!("sqlite://user:{}@/nonexistent-dir-c20/x.db?admin_password={}&busy_timeout=1", pw, pct(&apw_special)),
                     "postgres" => format!("postgres://user:{}@127.0.0.1:1/db?connect_timeout=1&admin_account=adm&admin_password={}", pw, apw),
                     "postgres-encoded" => format!("postgres://user:{}@127.0.0.1:1/db?connect_timeout=1", pct(&pw_special)),
                     "unknown-scheme" => format!("mysql://user:{}@db.example/db", pw),
@@ -1501,7 +1517,7 @@ fn gen_buf_systematic(out: &mut Vec<Value>, thorough: bool) {
 }
 
 fn fmt_types() -> Vec<String> {
-    let mut t: Vec<String> = ["SecretBytes", "ArrayKey", "PassKey", "Entry", "Options", "Options:query", "PostgresStoreOptions", "PostgresStoreOptions:query",
+    let mut t: Vec<String> = ["SecretBytes", "ArrayKey", "PassKey", "Entry", "Options", "Options:query", "Options:query-special", "PostgresStoreOptions", "PostgresStoreOptions:query", "PostgresStoreOptions:query-special",
                               "Argon2", "BlsKeyGen", "RandomDet", "Encrypted", "KeyEntry", "Store", "Session",
                               "Error:secret_bytes_len", "Error:jwk_mismatch", "Error:jwk_garbage", "Error:bad_raw_key", "Error:wrong_pass_key", "Error:decrypt_bad_tag"]
         .iter().map(|s| s.to_string()).collect();
@@ -1519,7 +1535,7 @@ fn fmt_types() -> Vec<String> {
 fn log_scenarios() -> Vec<String> {
     let mut s = vec!["lifecycle:raw".to_string(), "lifecycle:argon".to_string()];
     for entry in ["open", "provision", "remove"] {
-        for which in ["postgres", "postgres-encoded", "unknown-scheme", "sqlite"] {
+        for which in ["postgres", "postgres-encoded", "postgres-query-encoded", "sqlite-query-encoded", "unknown-scheme", "sqlite"] {
             s.push(format!("uri:{}/{}", entry, which));
         }
     }
@@ -1556,6 +1572,13 @@ pub fn gen(r: &mut Rng, thorough: bool, count: Option<usize>) -> Vec<Value> {
     let reps = if thorough { 4 } else { 1 };
     for rep in 0..reps {
         for t in fmt_types() {
+            if t.ends_with("query-special") {
+                // one case per reserved character (the seed's last decimal digit selects it, see `special_word`)
+                for j in 0..10u64 {
+                    out.push(json!({"kind": "c20:fmt", "id": format!("fmt-{}-{}-{}", t, rep, j), "ty": t, "seed": (r.next() >> 12) / 10 * 10 + j}));
+                }
+                continue;
+            }
             out.push(json!({"kind": "c20:fmt", "id": format!("fmt-{}-{}", t, rep), "ty": t, "seed": r.next() >> 12}));
         }
         for t in key_subjects() {
@@ -1563,6 +1586,12 @@ pub fn gen(r: &mut Rng, thorough: bool, count: Option<usize>) -> Vec<Value> {
         }
     }
     for s in log_scenarios() {
+        if s.ends_with("-query-encoded") {
+            for j in [0u64, 1, 3, 9] {
+                out.push(json!({"kind": "c20:log", "id": format!("log-{}-{}", s, j), "scenario": s, "seed": (r.next() >> 12) / 10 * 10 + j}));
+            }
+            continue;
+        }
         out.push(json!({"kind": "c20:log", "id": format!("log-{}", s), "scenario": s, "seed": r.next() >> 12}));
     }
     out
